@@ -204,7 +204,7 @@ def rule_focus_setter(ctx: Ctx) -> RuleResult:
     zero = [s for s in stores if s in empty_side and s not in other_side and isinstance(s.ast.value, ast.Constant) and s.ast.value.value == 0]
     # every path through the empty branch stores 0
     if not zero or not cfg.must_pass(empty_tests[0], zero + list(other_side - empty_side), ends=[cfg.exit]):
-        rr.add(finding("GUARD", st, empty_tests[0].stmt, "assigning the focus of an empty list does not reset _focus to 0: a stale index survives emptying and is exposed again when items are added without a focus adjustment (+=)", construct="empty list does not force _focus = 0"))
+        rr.add(finding("GUARD", st, empty_tests[0].stmt, "assigning the focus of an empty list does not reset _focus to 0: a stale index survives emptying; when the list is filled again the focus setter compares the new index 0 with that stale value, so whether the focus-changed callback fires depends on the list's history", construct="empty list does not force _focus = 0"))
     main = [s for s in stores if s in other_side and ast.unparse(s.ast.value) == idx]
     rr.inst("main store", True)
     if len(main) != 1:
